@@ -39,7 +39,7 @@ Proof. intros H. inversion H; subst; try discriminate.
   - apply TR_toolong; assumption. Qed.
 
 Section Step.
-Variables (m : mode) (rv : Z -> Z -> Z) (s : pubstate) (n off : Z).
+Variables (m : mode) (rv : Z -> Z -> list Z -> Z) (s : pubstate) (n off : Z).
 Hypothesis Hinv : pub_inv n off s.
 Local Notation l := (ps_log s).
 
